@@ -81,6 +81,36 @@ def api_level(rep, tier_, rng):
                         if not inside(op(p_, q_), v):
                             rep.violation("iv operator %s misses an exact result" % nm, {"fn": "iv " + nm, "x": repr(x), "y": repr(y), "prec": prec})
                             break
+            # gamma family: necessary condition — the result must contain Gamma at every integer / half-integer
+            # member point (exact factorials; sqrt(pi) from the Coq-certified enclosure Cert/Consts.v)
+            SQPI = (Fraction(17724538509055160272981674833411451827975, 10**40), Fraction(17724538509055160272981674833411451827976, 10**40))
+            def gamma_half(k):     # enclosure of Gamma(k/2), k >= 1
+                if k % 2 == 0:
+                    v = Fraction(math.factorial(k // 2 - 1)); return (v, v)
+                n = (k - 1) // 2
+                c = Fraction(math.factorial(2 * n), 4**n * math.factorial(n))
+                return (c * SQPI[0], c * SQPI[1])
+            k = rng.randint(1, 24)
+            c = Fraction(k, 2)
+            wl = Fraction(rng.choice([0, 1, 3, 9, 30]), 16); wr = Fraction(rng.choice([0, 1, 3, 9, 30]), 16)
+            lo = c - wl
+            if lo <= 0: lo = Fraction(1, 16)
+            g = iv.mpf([float(lo), float(c + wr)])
+            glo, ghi = gamma_half(k)
+            for nm, f, tr in (("gamma", iv.gamma, lambda v: v), ("rgamma", iv.rgamma, lambda v: 1 / v),
+                              ("factorial", iv.factorial, None)):
+                try:
+                    v = f(g) if tr is not None else f(g - 1)
+                except Exception:
+                    continue
+                checked += 1
+                a_, b_ = v._mpi_
+                vlo, vhi = (glo, ghi) if nm != "rgamma" else (1 / ghi, 1 / glo)
+                below = (a_ != gen.FNINF) and ((mpf_value(a_) if a_[1] else Fraction(0)) > vhi)
+                above = (b_ != gen.FINF) and ((mpf_value(b_) if b_[1] else Fraction(0)) < vlo)
+                if below or above:
+                    rep.violation("iv.%s misses the exact value at the member point %s" % (nm, c),
+                                  {"fn": "iv." + nm, "interval": [str(lo), str(c + wr)], "point": str(c), "prec": prec})
     finally:
         iv.prec = p0
     return {"api_level_checks": checked, "api_level": "iv.mpf conversions (int, float, p/q, decimal strings, mpf, [a, b] strings) and operators + - * / ** abs neg with mixed operands"}
